@@ -42,10 +42,10 @@ impl Duration {
 }
 
 impl From<std::time::Duration> for Duration {
+    /// Panics if the duration would overflow when converted to nanoseconds.
     fn from(duration: std::time::Duration) -> Self {
-        Duration {
-            nanos: duration.as_nanos() as u64,
-        }
+        let nanos = u64::try_from(duration.as_nanos()).expect("duration overflow");
+        Duration { nanos }
     }
 }
 
